@@ -9,7 +9,7 @@ MUST_ENTER = [('a5/core/cell.py', 'cell_to_lonlat'), ('a5/core/cell.py', 'lonlat
               ('a5/core/hilbert.py', 'ij_to_s'), ('a5/core/origin.py', 'segment_to_quintant'), ('a5/core/origin.py', 'quintant_to_segment')]
 RULE = ('cells c: every id of levels 0..5 (quick; 20,472 cells) / 0..7 (thorough; 327,672); structured deep ids for every (face, segment) '
         'with S digit patterns (all-0, all-3, 0333.., 1000.., 1222.., alternating, single deviating digit, runs, random) at r in 6..29 '
-        'built through cell_to_children only; cells found at the poles / frame points / antimeridian / dodecahedron edges / seams at every r; runs of index-consecutive deep cells (siblings and cousins) in one process. Per cell: cell_to_lonlat '
+        'built through cell_to_children only; cells found at the poles / frame points / antimeridian / dodecahedron edges / seams at every r; runs of index-consecutive deep cells (siblings and cousins) in one process; the same (face, segment, S) at consecutive resolutions back to back. Per cell: cell_to_lonlat '
         'does not raise, lon in [-180,180], lat in [-90,90], the centre is inside the cell own ring by >= 1e-3 cell widths (independent '
         'point-in-ring oracle), lonlat_to_cell(centre, res) == c. distinct = distinct ids; non-trivial = r>=2')
 ASSUMPTIONS = ['"strictly inside" is operationalised as margin >= 1e-3 widths (observed minimum is reported)']
@@ -84,6 +84,18 @@ def run_shard(spec, ctx):
                 for pp in run:
                     for sib in a5.cell_to_children(pp):
                         eval_cell(a5, geo, sib, r, 'run', ctx)
+            if n % 8 == 3:
+                # the same (face, segment, S) at consecutive resolutions, back to back (a coarse-to-fine sweep at one index: S is the
+                # digit string read as a number, so these are the cells whose paths differ by leading zero digits), up then down
+                digs = gen.digits_pattern(rnd, rnd.randint(0, 5))
+                while digs and digs[0] == 0:
+                    digs = digs[1:]
+                lo = max(2, len(digs) + 1)
+                r0 = rnd.randint(lo, 29)
+                lad = list(range(r0, min(29, r0 + rnd.randint(1, 5)) + 1))
+                for rr in lad + lad[::-1][1:]:
+                    cc = gen.cell_by_path(a5, n % 12, (n // 12) % 5, [0] * (rr - 1 - len(digs)) + digs)
+                    eval_cell(a5, geo, cc, rr, 'same_index_ladder', ctx)
         ctx.sample({'cell': c, 'r': r, 'centre': a5.cell_to_lonlat(c)})
     else:
         from rv import branch
